@@ -81,8 +81,9 @@ func Run(p gsim.Plan) (v hk.Verdict) {
 				v.Failf("%s (a) output %s remains although its input is %s (not live) and no external finalizer holds it; log: %s", ctx, out, in, tail(r.Log))
 			}
 
-			// (c) a torn-down input whose output is gone no longer carries the controller's finalizer
-			if in != nil && in.Phase == 1 && out == nil {
+			// (c) a torn-down input whose output is gone no longer carries the controller's finalizer (unless the
+			// controller options make it ignore that teardown: then it holds the input like a running one)
+			if in != nil && in.Phase == 1 && out == nil && !gsim.TreatedAsRunning(p, in) {
 				if slices.Contains(in.Fins, gsim.CtrlName) {
 					v.Failf("%s (c) torn-down input %s still carries the controller's finalizer although its output is gone; log: %s", ctx, in, tail(r.Log))
 				}
